@@ -1040,6 +1040,9 @@ def gen_meta(repo):
          'color_depth: u32::from(data_precision) * u32::from(components),', 'color_depth: (data_precision * components).into(),', 'try_jpeg colour depth')
     m = need(meta, r'match r\.read::<u8>\(\)\? \{ ((?:0x[0-9A-F]{2} \| )+0x[0-9A-F]{2}) => \{ let _len = r\.read::<u16>\(\)\?;', 'try_jpeg SOF markers')
     out.append('/-- JPEG start-of-frame markers recognised by `try_jpeg` -/\ndef picJpegSof : List Nat := [' + ', '.join(str(int(x, 16)) for x in m.group(1).split(' | ')) + ']\n')
+    flag('seekMaxOffsetRefused', 'does the SEEKTABLE writer refuse a defined point at offset u64::MAX (false = it is written and reads back as a placeholder)?',
+         '_ if point.sample_offset() == Some(u64::MAX) => Err(Error::InvalidSeekTablePoint), None => {',
+         '.try_for_each(|point| match last_offset.as_mut() { None => {', 'ToBitStream for SeekTable')
     flag('metaUpdateFlushes', 'does the in-place path of `update_file` flush its buffered writer and report the result (false = the writer is dropped unflushed)?',
          ['let mut w = BufWriter::new(w); write_blocks(&mut w, blocks)?; w.flush().map_err(Error::Io)', 'write_in_place(original, blocks) .map(|()| false) .map_err(E::from)'], 'write_blocks(BufWriter::new(original), blocks) .map(|()| false) .map_err(E::from)', 'update_file in-place write')
     out.append('end Flac.Gen')
